@@ -34,3 +34,28 @@ PROPS["C17"] = {
     "partial": ["the theorems cover encodeCodepoint, decodeHex, surrogate arithmetic and the escape tables; the composition through "
                 "parseQuotedString (position independence) rests on the exhaustive correspondence run"],
 }
+
+PROPS["C02"] = {
+    "level_text": "Theorems for every text and every capacity: the bounded writer returns min(cap,length), stores exactly that prefix, writes a NUL iff "
+                  "length < cap (text formats), defines exactly cap bytes and leaves the rest untouched. The text itself (escaping, separators, numbers, "
+                  "pretty layout) is produced by the model JSer/JS, which is compared byte for byte with serializeJson/serializeJsonPretty on generated "
+                  "documents, and the implementation's text is parsed by an independent RFC 8259 parser and compared with the document; all destination "
+                  "kinds, measureJson and guard bytes are checked inside the harness.",
+    "level_note": "Lean kernel for the buffer contract; RFC 8259 conformance of the produced text is established by the independent parser on sampled "
+                  "documents (not yet by a theorem); Arduino String/Print destinations only in the AJ_ARDUINO build of the thorough tier",
+    "theorems": ["C02.buffer_count", "C02.buffer_prefix", "C02.buffer_nul", "C02.buffer_no_nul_binary", "C02.buffer_within", "C02.buffer_untouched", "C02.buffer_content"],
+    "suites": lambda tier: [S.JsonSerSuite(cfg=DEF), S.SerBufSweep(cfg=DEF, fmt="json")] + ([S.JsonSerSuite(cfg=CFG_ALL, n=20000), S.JsonSerSuite(cfg={"arduino": 1}, n=20000)] if tier == "thorough" else [S.JsonSerSuite(cfg=CFG_ALL, n=600)]),
+    "partial": ["C02_denotes (the text is in the RFC 8259 grammar and denotes the document) is not proved yet; it rests on the correspondence and the independent parser"],
+}
+
+PROPS["C03"] = {
+    "level_text": "Theorem for every configuration, limit and byte string: the JSON deserializer never takes more bytes from its reader than the input has "
+                  "(invariant consumed + unread = length carried through all routines, incl. the mutually recursive parser). The model is compared with the real "
+                  "library on bounded-exhaustive token sequences, mutated and random inputs through nine reader kinds, inputs in exactly-sized heap blocks under "
+                  "ASan+UBSan; the six codes and source independence are checked on the implementation directly.",
+    "level_note": "memory safety of the binary is observed by sanitizers, not proved; the MessagePack bound and fuel sufficiency (termination) theorems are in progress",
+    "theorems": ["C03.json_reads_within_input"],
+    "suites": lambda tier: [S.JsonAnySuite(cfg=DEF), S.MpDeSuite(cfg=DEF, n=1200 if tier == "quick" else 100000), S.FilterSuite(cfg=DEF, n=2500 if tier == "quick" else 100000)] +
+                           ([S.JsonAnySuite(cfg=CFG_ALL, n=200000), S.JsonAnySuite(cfg=CFG_NOUNI, n=100000)] if tier == "thorough" else [S.JsonAnySuite(cfg=CFG_ALL, n=8000)]),
+    "partial": ["termination/no-fault (fuel sufficiency) and the MessagePack read bound are not proved yet"],
+}
